@@ -9,7 +9,11 @@ import time
 import traceback
 
 logging.disable(logging.CRITICAL)
-REPO_SRC = "/repo/src/datashard"
+try:
+    import datashard as _ds
+    REPO_SRC = os.path.dirname(os.path.abspath(_ds.__file__))
+except Exception:  # pragma: no cover
+    REPO_SRC = "/repo/src/datashard"
 
 
 class FnCoverage:
